@@ -849,7 +849,10 @@ class Gen(object):
     LARGE_BINARY = ["add", "subtract", "multiply", "divide"]
 
     def large(self, i):
-        """large-magnitude finite inputs for the i-th elementwise kernel (cyclic), forward and bw∘fw"""
+        """large-magnitude finite inputs for the i-th elementwise kernel (cyclic), forward and bw∘fw.
+        The inputs are chosen so that the exact forward value is representable; the upstream gradient of the
+        `_grad` lines has |gy| <= 1 so that the intermediate products of the backward formulas (k*gy*y, gy*y)
+        stay below FLT_MAX — an overflowing intermediate is float32 arithmetic, not a wrong formula."""
         rng = self.rng
         names = ([("u", n) for n in sorted(self.LARGE_UNARY)] + [("c", n) for n in sorted(self.LARGE_CONST)] +
                  [("s", n) for n in sorted(self.LARGE_SCALAR)] + [("b", n) for n in self.LARGE_BINARY])
@@ -860,7 +863,7 @@ class Gen(object):
             if fam == "u":
                 x = TT([n], 1, self.large_values(self.LARGE_UNARY[name], n))
                 if UNARY[name][0] and rng.random() < 0.5:
-                    gy = rtensor(rng, [n], 1, "dyadic", -3, 3, True)
+                    gy = rtensor(rng, [n], 1, "dyadic", -1, 1, True)
                     self.emit("%s_grad %s %s" % (name, x.tok(), gy.tok()), "tol", "grad", large=True)
                 else:
                     self.emit("%s_fw %s" % (name, x.tok()), "exact" if name in EXACT_UNARY else "tol", "fw", large=True)
@@ -869,7 +872,7 @@ class Gen(object):
                 x = TT([n], 1, self.large_values(pool, n))
                 k = rng.choice(ks)
                 if rng.random() < 0.5:
-                    gy = rtensor(rng, [n], 1, "dyadic", -3, 3, True)
+                    gy = rtensor(rng, [n], 1, "dyadic", -1, 1, True)
                     self.emit("%s_grad %s %s K:%s" % (name, x.tok(), gy.tok(), vtok(k)), "tol", "grad", large=True)
                 else:
                     self.emit("%s_fw %s K:%s" % (name, x.tok(), vtok(k)), "tol", "fw", large=True)
@@ -887,8 +890,9 @@ class Gen(object):
                 b = rtensor(rng, [n], bb, "dyadic", lo, hi, name == "divide")
                 if rng.random() < 0.5:
                     a, b = (b, a) if name != "divide" else (a, b)
-                if rng.random() < 0.5:
-                    gy = rtensor(rng, [n], max(ba, bb), "dyadic", -3, 3, True)
+                if ba == 1 and bb == 1 and rng.random() < 0.7:
+                    # |gy| <= 1 and no batch folding: every intermediate product of the backward formula stays finite
+                    gy = rtensor(rng, [n], 1, "dyadic", -1, 1, True)
                     self.emit("%s_grad %s %s %s" % (name, a.tok(), b.tok(), gy.tok()), "tol", "grad", large=True)
                 else:
                     self.emit("%s_fw %s %s" % (name, a.tok(), b.tok()), "tol", "fw", large=True)
